@@ -215,6 +215,10 @@ class Models:
                 return ClassVal(ex.table.cls(k.cls))
             if k == K.Dyn:
                 return DynType(v)
+            if isinstance(k, K.Opt):
+                if ex.run.decide(k.is_none(v.t)):
+                    return ClassVal(('ext', 'builtins.NoneType'))
+                return self.b_type(Sym(k.inner, k.val(v.t)))
             if isinstance(k, K.U):
                 return ClassVal(('ext', f'opaque.type_of_{k.name}'))
         if isinstance(v, ClassVal):
@@ -862,6 +866,24 @@ class Models:
             f = P.ufn('re_sub_' + _sepname(pat) + '_' + _sepname(repl), [z3.StringSort()], z3.StringSort())
             return Sym(K.Str, f(P.str_t(ex_, s)))
         return Builtin('re.sub', sub)
+
+    def x_re_subn(self):
+        def subn(ex_, a, k):
+            """re.subn(pattern, repl, s) (A-re): an uninterpreted scan of s; count 0 means nothing matched and the text is s itself"""
+            pat, repl, s = a[0], a[1], a[2]
+            if not isinstance(pat, str):
+                raise OutOfSubset('re.subn with a symbolic pattern')
+            ex_.run.assumed.add('A-re')
+            st = P.str_t(ex_, s)
+            rid = z3.StringVal(repr(getattr(getattr(repl, 'fi', None), 'key', repl)) if not isinstance(repl, str) else 'const:' + repl)
+            text = P.ufn('re_subn_text_' + _sepname(pat), [z3.StringSort(), z3.StringSort()], z3.StringSort())(st, rid)
+            count = P.ufn('re_subn_count_' + _sepname(pat), [z3.StringSort()], z3.IntSort())(st)
+            ex_.run.axiom(count >= 0)
+            ex_.run.axiom(z3.Implies(count == 0, text == st))
+            ret = (Sym(K.Str, text), Sym(K.Int, count))
+            ex_.run.trace.append(Event('re.subn', None, [pat, s], 'ret', ret))
+            return ret
+        return Builtin('re.subn', subn)
 
     def x_re_fullmatch(self):
         def fm(ex_, a, k):
